@@ -401,15 +401,12 @@ func (sc *StateContext) GetTrieNode(key datastore.Key, v util.MPTSerializable) e
 
 	cv, ok := sc.Cache().Get(key)
 	if ok {
-		ccv, ok := statecache.Copyable(v)
-		if !ok {
-			panic("state context cache - get trie node not copyable")
+		// a cached value of another type than the requested one (e.g. a miner's record read as
+		// a blobber) is not an invariant violation: any transaction can name any key. Decode the
+		// stored bytes instead, as a node without that cache entry does.
+		if ccv, ok := statecache.Copyable(v); ok && ccv.CopyFrom(cv) {
+			return nil
 		}
-
-		if !ccv.CopyFrom(cv) {
-			panic("state context cache - get trie node copy from failed")
-		}
-		return nil
 	}
 
 	// get from MPT
